@@ -73,7 +73,7 @@ def run_c10(ctx, fa):
             proj.pv(datum)
         except Exception:  # noqa: BLE001
             continue
-        strict = rnd.random() < 0.3
+        strict = rnd.random() < 0.4
         tuples = rnd.random() < 0.8
         try:
             c = validate_case(fa, "v%d" % len(cases), raw, datum, others, strict, tuples, kind)
